@@ -534,7 +534,8 @@ def time_bases(fn: FunctionInfo, e: ast.AST, event_params: set[str], depth: int 
             if e.attr in ("nanoseconds",):
                 return time_bases(fn, e.value, event_params, depth + 1, seen)
             return {f"stored:{p}"}
-        return time_bases(fn, e.value, event_params, depth + 1, seen)
+        # an attribute of something that is not a plain access path (`self._states[name].last_run_time`): still a recorded value
+        return {f"stored:<expr>.{e.attr}"}
     if isinstance(e, ast.BinOp) and isinstance(e.op, (ast.Add, ast.Sub)):
         lb = time_bases(fn, e.left, event_params, depth + 1, seen)
         rb = time_bases(fn, e.right, event_params, depth + 1, seen)
@@ -555,6 +556,15 @@ def time_bases(fn: FunctionInfo, e: ast.AST, event_params: set[str], depth: int 
         return out
     if isinstance(e, ast.IfExp):
         return time_bases(fn, e.body, event_params, depth + 1, seen) | time_bases(fn, e.orelse, event_params, depth + 1, seen)
+    if isinstance(e, ast.Subscript) and isinstance(e.slice, ast.Constant) and isinstance(e.slice.value, str) and path_of(e.value) is not None:
+        # a value carried in a context / metadata dict under a fixed key: recorded when the dict was filled
+        return {f"stored:{path_of(e.value)}.{e.slice.value}"}
+    if isinstance(e, ast.Call) and isinstance(e.func, ast.Attribute) and e.func.attr == "get" and e.args and isinstance(e.args[0], ast.Constant) \
+            and isinstance(e.args[0].value, str) and path_of(e.func.value) is not None:
+        out = {f"stored:{path_of(e.func.value)}.{e.args[0].value}"}
+        if len(e.args) > 1:
+            out |= time_bases(fn, e.args[1], event_params, depth + 1, seen)
+        return out
     if isinstance(e, ast.Call):
         fname = path_of(e.func) or ""
         last = fname.split(".")[-1]
